@@ -9,7 +9,7 @@ func init() {
 			"each pool model's state-mutating swap returns exactly what its pure calculation returned for the same arguments and applies exactly those coins to the reserves (sibling agreement).",
 		NotCovered:  []string{"agreement with the constant-weighted-product formula to powPrecision", "monotonicity of the stableswap invariant", "value conservation over sequences (iterative series and binary search)"},
 		Assumptions: []string{"osmomath.Pow / binary search accuracy (C13)"},
-		MinObl:      45,
+		MinObl:      51,
 		Run:         runC04,
 	})
 }
@@ -77,6 +77,7 @@ func runC04(c *rules.Ctx) {
 	c.Returns(SJ, 0, "sdkmath.LegacyDec.TruncateInt(balancer.calcPoolSharesOutGivenSingleAssetIn(...)) | sdkmath.ZeroInt()", "shares minted for a single-asset join are truncated", "")
 	// ---- keeper side of the all-asset join (shared with C02): what is minted is what the pool model credited
 	c.PairedArgN("x/gamm/keeper.Keeper.JoinPoolNoSwap", "gammtypes.CFMMPoolI.JoinPoolNoSwap", "gammkeeper.Keeper.applyJoinPoolStateChange", "all-asset join: shares minted = shares the pool model returned; coins moved = coins given to it")
+	gammStateChangeCheckedRules(c)
 	// ---- stableswap joins: one asset or all assets, nothing in between
 	const SJ2 = S + "joinPoolSharesInternal"
 	c.FailsWhen(SJ2, "ne(len(tokensIn), stableswap.Pool.NumAssets(p))", "a multi-asset stableswap join must supply every pool asset (a proper subset would be credited proportional shares for assets it never provided)", rules.GuardOpt{Conditional: true, Before: "cfmm_common.MaximalExactRatioJoin"})
